@@ -1,5 +1,5 @@
 """C09 A blocked log call resumes once the backend made room; no stall on empty queue."""
-from lib import vf, opxlib
+from lib import vf, opxlib, wmmlib
 
 LEVEL = "model_checking"
 SRC = "engines/opx/sc_c20.cpp"
@@ -7,6 +7,7 @@ SRC = "engines/opx/sc_c20.cpp"
 
 def prebuild():
     opxlib.build("sc_c20", SRC)
+    wmmlib.build()
 
 
 def jobs(tier):
@@ -36,10 +37,29 @@ def run(ctx):
                 "histories of 0-3 earlier statements (36 / 244 / 494 bytes), fully consumed or consumed as the schedule "
                 "decides, followed by a statement of every size in the grid up to the capacity; all schedules up to the "
                 "preemption bound; a call that never returns (no actor enabled) or a fitting statement rejected on an empty "
-                "queue is the violation; distinct = distinct observable outcomes")
+                "queue is the violation; queue level: every terminal drained state of the Engine A explorations x every request size; "
+                "distinct = distinct observable outcomes")
     ctx.set_deadline(170 if ctx.tier == "quick" else 1800)
     exe = opxlib.build("sc_c20", SRC)
     opxlib.run_jobs(ctx, exe, jobs(ctx.tier), "sc_c20(c09)", explorers=8, workers=2)
+    # queue level (Engine A): in every execution of the C01/C02 explorations a blocked producer must be served, and in
+    # every terminal state in which the consumer has drained the queue every request up to the capacity must be granted
+    qexe = wmmlib.build()
+    if ctx.tier == "quick":
+        qjobs = wmmlib.bounded_jobs(qexe, ["u8"], [8, 16], [5, 50, 100], [0, 1], 3)
+        qjobs += wmmlib.bounded_jobs(qexe, ["u8"], [32, 64], [5, 25], [0], 2)
+        qjobs += wmmlib.unbounded_jobs(qexe, [(8, 16), (8, 32)], 2, deadline=300)
+        qjobs += wmmlib.unbounded_jobs(qexe, [(8, 24)], 2, deadline=300)
+    else:
+        qjobs = wmmlib.bounded_jobs(qexe, ["u8", "u16", "u64"], [8, 16, 32, 64], [0, 5, 25, 50, 100], [0, 1], 3)
+        qjobs += wmmlib.unbounded_jobs(qexe, [(8, 16), (8, 32), (16, 64)], 3, deadline=900)
+        qjobs += wmmlib.unbounded_jobs(qexe, [(8, 24), (16, 48)], 3, deadline=900)
+    nviol_before = len(ctx.violations)
+    for rr in vf.run_many(qjobs):
+        ctx.absorb(rr, "h_queues(c09)")
+    # safety verdicts of these runs belong to C01/C02 (reported by their checks); keep the liveness ones here
+    ctx.violations = ctx.violations[:nviol_before] + [v for v in ctx.violations[nviol_before:]
+                                                      if v.get("kind") in ("stall-on-empty-queue", "stall-on-empty-queue-nonpow2", "deadlock")]
     ctx.assumptions.append("liveness is expressed as: with the backend polling, the blocked call must return before the system reaches a state in which no actor can act (virtual time is advanced twice before calling it a stall)")
 
 
